@@ -13,6 +13,8 @@ import Golib.Proof.C15Underscore
 import Golib.Proof.C15Hex
 import Golib.Proof.C15HexText
 import Golib.Proof.C15B64
+import Golib.Proof.C15Stream
+import Golib.Proof.C15B64Len
 import Golib.Proof.C15IP
 import Golib.Proof.C15Facts
 
@@ -279,6 +281,42 @@ example : invalidByteTextSpec 103 = asciiBytes "encoding/hex: invalid byte: U+00
     invalidByteTextSpec 0xe9 = asciiBytes "encoding/hex: invalid byte: U+00E9 '" ++ [0xc3, 0xa9, 39] ∧
     invalidByteTextSpec 0xad = asciiBytes "encoding/hex: invalid byte: U+00AD" := by decide
 
+/-! ### Stream form = one-shot form, for every reader
+
+`streamHelper H script`: the `…Stream` helper of the algorithm with digest function `H` on a
+reader that behaves as `script` (a list of `Read` results: chunk, and what came with it). -/
+
+/-- Every chunking: if the reader delivers chunks `pre` without error (any sizes, empty reads
+included) and then a chunk `c` TOGETHER with `io.EOF` (`c` may be empty: the usual final
+`(0, EOF)`), the helper returns `HexEncode(H(pre ++ c))` — the one-shot result on the
+concatenation — whatever the reader would do afterwards.  In particular two readers delivering
+the same bytes in different pieces give the same result, and no byte delivered with EOF is lost. -/
+theorem c15_stream_any_chunking (H : List Nat → List Nat) (pre : ReadScript) (c : List Nat)
+    (post : ReadScript) (hpre : ∀ r ∈ pre, r.2 = RErr.none) :
+    streamHelper H (pre ++ (c, RErr.eof) :: post) = .value (hexEncode? (H (delivered pre ++ c))) := by
+  unfold streamHelper
+  rw [ioCopy_prefix pre c .eof post [] hpre (by decide)]
+  simp
+
+/-- Failures: a non-EOF error (alone or together with data) makes the helper return the error, a
+panicking `Read` propagates, and as long as the reader has reported no error the helper has not
+returned (it never produces a digest of a partial stream). -/
+theorem c15_stream_failures (H : List Nat → List Nat) (pre : ReadScript) (c : List Nat)
+    (post : ReadScript) (hpre : ∀ r ∈ pre, r.2 = RErr.none) :
+    streamHelper H (pre ++ (c, RErr.other) :: post) = .error ∧
+    streamHelper H (pre ++ (c, RErr.panic) :: post) = .panic ∧
+    streamHelper H pre = .pending := by
+  unfold streamHelper
+  rw [ioCopy_prefix pre c .other post [] hpre (by decide),
+    ioCopy_prefix pre c .panic post [] hpre (by decide), ioCopy_all_none pre [] hpre]
+  simp
+
+-- "abc" in one read with EOF, byte by byte with zero-length reads in between, and with a non-EOF error
+example : streamHelper (fun w => w) [([97, 98, 99], .eof)] = .value (some [54, 49, 54, 50, 54, 51]) ∧
+    streamHelper (fun w => w) [([], .none), ([97], .none), ([], .none), ([98], .none), ([99], .eof), ([100], .none)]
+      = .value (some [54, 49, 54, 50, 54, 51]) ∧
+    streamHelper (fun w => w) [([97, 98], .none), ([99], .other)] = .error := by decide
+
 /-! ### Base64 (`Base64Encode` / `Base64Decode` = `enc.Encode` / `enc.Decode` on a fresh buffer, result
 `dst[:n]` and the error; `e` ranges over Std / URL / RawStd / RawURL) -/
 
@@ -301,6 +339,17 @@ theorem c15_base64_rejects (e : B64Enc) (x : List Nat) (hm : x.length % 3 = 0)
     b64Decode e (b64Encode e x ++ q.map (b64Char e.url) ++ c :: post) =
       (x, some ((b64Encode e x).length + q.length)) :=
   b64_invalid_char e x hm hx q hq c post hc hnl hpad
+
+/-- Buffer sizes: `Base64Encode` allocates `EncodedLen(len(s))` bytes and the encoder fills exactly
+that many; `Base64Decode` allocates `DecodedLen(len(s))` bytes and the decoder NEVER produces more,
+for any input whatsoever (valid, truncated, with newlines, corrupt) — so `dst[:n]` is in range. -/
+theorem c15_base64_buffers (e : B64Enc) (x src : List Nat) :
+    (b64Encode e x).length = encodedLen e x.length ∧
+    (b64Decode e src).1.length ≤ decodedLen e src.length :=
+  ⟨b64Encode_length e x, b64Decode_length e src⟩
+
+example : encodedLen ⟨false, true⟩ 4 = 8 ∧ encodedLen ⟨true, false⟩ 4 = 6 ∧ decodedLen ⟨false, true⟩ 7 = 3 ∧
+    decodedLen ⟨false, false⟩ 7 = 5 := by decide
 
 -- the padding grammar as coded (evaluated): "Zm9vYg==" ok; one '=' missing → offset len(src); 'x' after
 -- the padding → the quantum's byte is still delivered, error at the garbage; "Zg=x" → offset 2 (si-1);
